@@ -11,33 +11,166 @@ from .. import travrules as T
 LV = "LiteralVisitor"
 
 
-def _exclusion(name_lit, root_variant):
+def _alternatives(prog, fn, e, val, root_variant, subst, depth=0, node_locals=None):
+    """ways in which the boolean expression e of fn can have the value val, each a list of atomic facts
+    (fn, expr, value, subst); calls of crate predicates are opened up (all paths of their bodies),
+    alternatives that need the visited node to be of another kind than root_variant are dropped"""
+    out = [[]]
+    if node_locals is None:
+        # the visited node: the node parameter of the override
+        node_locals = set()
+        if len(fn.rec.get("params", [])) > 1:
+            node_locals = {(fn.def_path, b_["local"]) for b_ in hir.pat_bindings(fn.rec["params"][1]["pat"])}
+    for x, v in _flatten({"e": e, "v": val}):
+        x0 = hir.peel(x)
+        h = prog.resolve_local(x0) if hir.is_call(x0) else None
+        compound = x0.get("k") in ("Match", "If", "BlockExpr") and depth < 4
+        if compound or (h is not None and h.body is not None and (h.rec.get("ret") or "") == "bool" and depth < 4):
+            sub_subst = dict(subst)
+            sub_nodes = set(node_locals)
+            body_ = x0 if compound else h.body
+            if compound:
+                h = fn
+            for i_, a_ in enumerate(hir.call_args(x0) if not compound else []):
+                la_ = hir.local_of(hir.peel_transparent(a_))
+                if la_ and (fn.def_path, la_[0]) in node_locals and i_ < len(h.rec["params"]):
+                    for b_ in hir.pat_bindings(h.rec["params"][i_]["pat"]):
+                        sub_nodes.add((h.def_path, b_["local"]))
+                lv = hir.lit_value(a_)
+                if lv is None:
+                    la = hir.local_of(a_)
+                    if la and (fn.def_path, la[0]) in subst:
+                        lv = subst[(fn.def_path, la[0])]
+                if lv is not None and i_ < len(h.rec["params"]):
+                    for b_ in hir.pat_bindings(h.rec["params"][i_]["pat"]):
+                        sub_subst[(h.def_path, b_["local"])] = lv
+            alts = []
+            for conds_h, value in hir.decision_paths(body_):
+                if value is None or value.get("k") == "?":
+                    alts.append([(h, {"k": "?"}, True, sub_subst)])
+                    continue
+                lv = hir.lit_value(value)
+                if lv is not None and bool(lv) != v:
+                    continue
+                facts = [[]]
+                bad_variant = False
+                for ce, ct in conds_h:
+                    if ce.get("k") == "PatCond":
+                        pv_ = str(hir.pat_variant(ce["pat"]))
+                        if ct and "swc_ecma_ast::Expr::" in pv_ and hir.local_of(ce["scrut"]) and (h.def_path, hir.local_of(ce["scrut"])[0]) in sub_nodes:
+                            if root_variant is not None and not pv_.endswith("Expr::" + root_variant):
+                                bad_variant = True
+                            facts = [f0 + [(h, {"k": "NodeVariant", "v": pv_.split("::")[-1]}, True, sub_subst)] for f0 in facts]
+                        continue
+                    if ce.get("k") == "ArmNot":
+                        continue
+                    facts = [f0 + a0 for f0 in facts for a0 in _alternatives(prog, h, ce, ct, root_variant, sub_subst, depth + 1, sub_nodes)]
+                if bad_variant:
+                    continue
+                if lv is None:
+                    facts = [f0 + a0 for f0 in facts for a0 in _alternatives(prog, h, value, v, root_variant, sub_subst, depth + 1, sub_nodes)]
+                alts += facts
+            out = [o + a for o in out for a in alts]
+        else:
+            out = [o + [(fn, x, v, subst)] for o in out]
+    return out
+
+
+def _exclusion(name_lit, root_variant, siblings=None):
+    """siblings: {variant: name} of all documented (call kind, callee name) exclusions; used when the path
+    itself does not say which kind the node is (the kind is decided inside a predicate)"""
     def pred(tr, path, missing):
         v = tr.variant_known(path, ())
-        if not (isinstance(v, str) and v.endswith("Expr::" + root_variant)):
+        unknown_root = v is None and siblings is not None
+        if not unknown_root and not (isinstance(v, str) and v.endswith("Expr::" + root_variant)):
             return None
         if not path.term:
             return None
-        want = {"name": False, "nonempty": False, "nospread": False, "islit": False}
-        extra = []
+        if unknown_root:
+            alts = [[]]
+            for c in path.conds:
+                if c.get("t") == "pat":
+                    continue
+                if c.get("t") != "bool":
+                    if c.get("t") not in ("closure", "inlined"):
+                        return None
+                    continue
+                alts = [a + b for a in alts for b in _alternatives(tr.prog, tr.fn, c["e"], c["v"], None, {})]
+            if not alts:
+                return None
+            for facts in alts:
+                vs = {e["v"] for fn_, e, val, subst in facts if isinstance(e, dict) and e.get("k") == "NodeVariant"}
+                if len(vs) != 1 or list(vs)[0] not in siblings:
+                    return None
+                nm = siblings[list(vs)[0]]
+                want = {"name": False, "nonempty": False, "nospread": False, "islit": False}
+                for fn_, e, val, subst in facts:
+                    if isinstance(e, dict) and e.get("k") == "NodeVariant":
+                        continue
+                    k = _classify(e, val, nm, fn_, subst)
+                    if k in want:
+                        want[k] = True
+                        if k in ("nospread", "islit") and _via_first(fn_, e):
+                            want["nonempty"] = True
+                    else:
+                        return None
+                if not all(want.values()):
+                    return None
+            return "require(<literal>, ..) / new RegExp(<literal>, ..): literal arguments are a documented exclusion (decided inside a predicate)"
+        alts = [[]]
+        extra0 = []
         for c in path.conds:
             if c.get("t") == "pat":
                 continue
             if c.get("t") != "bool":
                 if c.get("t") not in ("closure", "inlined"):
-                    extra.append(hir.cond_str(c))
+                    extra0.append(hir.cond_str(c))
                 continue
-            for e, val in _flatten(c):
-                k = _classify(e, val, name_lit)
+            alts = [a + b for a in alts for b in _alternatives(tr.prog, tr.fn, c["e"], c["v"], root_variant, {})]
+        if extra0 or not alts:
+            return None
+        for facts in alts:
+            want = {"name": False, "nonempty": False, "nospread": False, "islit": False}
+            extra = []
+            for fn_, e, val, subst in facts:
+                if isinstance(e, dict) and e.get("k") == "NodeVariant":
+                    continue
+                k = _classify(e, val, name_lit, fn_, subst)
                 if k in want:
                     want[k] = True
+                    if k in ("nospread", "islit") and _via_first(fn_, e):
+                        want["nonempty"] = True
                 else:
                     extra.append(("" if val else "!") + hir.describe(e))
-        if all(want.values()) and not extra:
-            return "%s(<literal>, ..): literal arguments are a documented exclusion" % name_lit
-        return None
+            if not all(want.values()) or extra:
+                return None
+        return "%s(<literal>, ..): literal arguments are a documented exclusion" % name_lit
 
     return pred
+
+
+def _via_first(fn, e):
+    """the fact is about the closure parameter of `<list>.first().is_some_and(|a| ..)`: the list is not empty"""
+    e = hir.peel(e)
+    if not hir.is_call(e):
+        return False
+    a0 = hir.peel_transparent(hir.call_args(e)[0])
+    return a0.get("k") == "Field" and _first_closure_param(fn, a0["x"])
+
+
+def _first_closure_param(fn, x):
+    l = hir.local_of(x)
+    b = fn.bindings().get(l[0]) if l and fn is not None else None
+    if not b or b["origin"][0] != "closure_param":
+        return False
+    cl = b["origin"][1]
+    par = fn.parent(cl)
+    while par is not None and not hir.is_call(par):
+        par = fn.parent(par)
+    if par is None or (hir.callee_name(par) or par.get("method")) not in ("is_some_and", "map", "map_or", "is_none_or"):
+        return False
+    recv = hir.peel(hir.call_args(par)[0])
+    return hir.is_call(recv) and (hir.callee_name(recv) or recv.get("method")) == "first"
 
 
 def _flatten(c):
@@ -91,11 +224,13 @@ def _some_true_cmp(e):
     return None
 
 
-def _classify(e, v, name_lit):
+def _classify(e, v, name_lit, fn=None, subst=None):
     e = hir.peel(e)
     if e.get("k") == "Binary" and e["op"] == "Eq" and v:
         sides = [hir.peel_transparent(e["l"]), hir.peel_transparent(e["r"])]
         lits = [hir.lit_value(s) for s in sides]
+        if fn is not None and subst:
+            lits += [subst.get((fn.def_path, hir.local_of(s)[0])) for s in sides if hir.local_of(s)]
         if name_lit in lits and any(s.get("k") == "Field" and s["field"] == "sym" for s in sides):
             return "name"
     if hir.is_call(e):
@@ -103,9 +238,9 @@ def _classify(e, v, name_lit):
         a0 = hir.peel_transparent(hir.call_args(e)[0])
         if nm == "is_empty" and not v:
             return "nonempty"
-        if nm == "is_none" and v and a0.get("k") == "Field" and a0["field"] == "spread" and _first_elem(a0["x"]):
+        if nm == "is_none" and v and a0.get("k") == "Field" and a0["field"] == "spread" and (_first_elem(a0["x"]) or _first_closure_param(fn, a0["x"])):
             return "nospread"
-        if nm == "is_lit" and v and a0.get("k") == "Field" and a0["field"] == "expr" and _first_elem(a0["x"]):
+        if nm == "is_lit" and v and a0.get("k") == "Field" and a0["field"] == "expr" and (_first_elem(a0["x"]) or _first_closure_param(fn, a0["x"])):
             return "islit"
     return "?"
 
@@ -285,7 +420,7 @@ def _isparam(f, place, idx):
 
 def run(check):
     check.rule("TRAV-COVER", "every override of the literal collector visits all children that can contain a literal on every path, except require(<lit>,..) / new RegExp(<lit>,..) guarded by exactly the four documented conjuncts")
-    check.guarded("TRAV-COVER", lambda c: T.run_cover(c, "TRAV-COVER", LV, {T.LIT}, [_exclusion("require", "Call"), _exclusion("RegExp", "New")], {"visit_lit", "visit_expr"}))
+    check.guarded("TRAV-COVER", lambda c: T.run_cover(c, "TRAV-COVER", LV, {T.LIT}, [_exclusion("require", "Call", {"Call": "require", "New": "RegExp"}), _exclusion("RegExp", "New")], {"visit_lit", "visit_expr"}))
     check.guarded("DEFAULT-VISITOR", lambda c: T.rule_default_visitor(c, "Visit", {T.LIT}))
     check.guarded("BOOLDISCARD", rule_booldiscard)
     check.guarded("WINDOW", rule_window)
